@@ -124,15 +124,15 @@ def ob_point_space(k, timeout):
 
 
 def ob_tg_space(mode, timeout):
-    names = ["s", "d", "hi", "s0", "e0", "t0"]
+    names = ["s", "d", "hi", "s0", "e0", "t0", "ph"]
 
-    def pre(s, d, hi, s0, e0, t0):
-        return ivs_wf_pre(0.0, hi, s0, e0) & within(0.0, hi, t0, s) & (hi <= 1024.0) & (d > 0) & (d <= 1024.0)
+    def pre(s, d, hi, s0, e0, t0, ph):
+        return ivs_wf_pre(0.0, hi, s0, e0) & within(0.0, hi, s, ph) & within(0.0, ph, t0) & (hi <= 1024.0) & (d > 0) & (d <= 1024.0)
 
-    def body(s, d, hi, s0, e0, t0):
+    def body(s, d, hi, s0, e0, t0, ph):
         tg = Textgrid(0.0, hi)
         tg.addTier(IntervalTier("i", [Interval(s0, e0, "x")], 0.0, hi))
-        tg.addTier(PointTier("p", [Point(t0, "q")], 0.0, hi))
+        tg.addTier(PointTier("p", [Point(t0, "q")], 0.0, ph))  # a tier may end before the textgrid does
         tg.addTier(IntervalTier("empty", [], 0.0, hi))
         before = snap_tg(tg)
         exp = R.insert_space_intervals([(s0, e0, "x")], 0.0, hi, s, d, mode)
@@ -156,10 +156,12 @@ def ob_tg_space(mode, timeout):
             return "tier entries differ from per-tier insertSpace"
         if tuples(r.getTier("empty").entries) != []:
             return "empty tier"
-        for t in list(r.tiers) + [r]:
+        for t in (r.getTier("i"), r.getTier("empty"), r):
             if (t.minTimestamp, t.maxTimestamp) != (lo, hi2):
                 return "span"
-        if not r.validate("silence"):
+        if (r.getTier("p").minTimestamp, r.getTier("p").maxTimestamp) != (0.0, ph + d):
+            return "every tier's span is lengthened by exactly d"
+        if ph == hi and not r.validate("silence"):
             return "validate false"
         return True
 
@@ -175,7 +177,7 @@ def ob_tg_space(mode, timeout):
     )
 
 
-def ob_roundtrip(k, mode, timeout):
+def ob_roundtrip(k, mode, timeout, labels=LABELS, tag=""):
     """insertSpace(s,d,mode) ; eraseRegion(s,s+d,'truncate',doShrink) restores the
     label-at-every-time function and the span (stretch/split)."""
     names = ["s", "d", "hi"] + _ts(k)
@@ -192,8 +194,8 @@ def ob_roundtrip(k, mode, timeout):
         )
 
     def body(s, d, hi, *ts):
-        ents = [(ts[2 * i], ts[2 * i + 1], LABELS[i]) for i in range(k)]
-        tier = IntervalTier("t", mk_ivs(ts), 0.0, hi)
+        ents = [(ts[2 * i], ts[2 * i + 1], labels[i]) for i in range(k)]
+        tier = IntervalTier("t", mk_ivs(ts, labels), 0.0, hi)
         r = tier.insertSpace(s, d, mode).eraseRegion(s, s + d, "truncate", True)
         if (r.minTimestamp, r.maxTimestamp) != (0.0, hi):
             return "span not restored"
@@ -206,7 +208,7 @@ def ob_roundtrip(k, mode, timeout):
         return True
 
     return Ob(
-        "roundtrip-k%d-%s" % (k, mode),
+        "roundtrip-k%d-%s%s" % (k, mode, tag),
         F(*names),
         body,
         pre,
@@ -227,7 +229,10 @@ def obligations(tier):
         obs.append(ob_tg_space("error", 180))
         for mode in ("stretch", "split"):
             obs.append(ob_roundtrip(2, mode, 300))
+        obs.append(ob_roundtrip(3, "stretch", 600, labels=["x", "x", "y"], tag="-xxy"))
     else:
+        obs.append(ob_roundtrip(3, "stretch", 3000, labels=["x", "x", "y"], tag="-xxy"))
+        obs.append(ob_roundtrip(3, "split", 3000, labels=["x", "y", "y"], tag="-xyy"))
         for mode in MODES:
             for k in (0, 1, 2, 3):
                 obs.append(ob_interval_space(k, mode, 900))
